@@ -24,12 +24,12 @@ EXH = {"name": "every registered processor is visited: the delivery loop is neve
 CONTRACTS = {
     D + "emit": dict(
         props=["C13", "C12"], params={"self": DISP, "event": ANY}, returns=NONE_T,
-        requires=["not self._strict"],
+        may_raise={"Exception": "self._strict"},  # best effort: a processor's exception escapes only in strict mode
         trace=[EXH], loops=[{"body_trace": [once({"on_event"})]}],
     ),
     D + "emit_async": dict(
         props=["C13", "C12"], params={"self": DISP, "event": ANY}, returns=NONE_T,
-        requires=["not self._strict"],
+        may_raise={"Exception": "self._strict"},
         trace=[EXH], loops=[{"body_trace": [once({"on_event", "on_event_async"})]}],
     ),
     D + "shutdown": dict(
